@@ -49,8 +49,8 @@ META = {
         "torch.arange / searchsorted / min / median / std semantics (external kernels, used through their contracts)",
         "svdstf (property C17) is a contract parameter: the model receives the transform the real svdstf returned; its optimality "
         "is re-checked on every call against an independent numpy Umeyama",
-        "float arange length: the code computes ceil(fl(1/interval)); compared with the rational count, a difference is accepted "
-        "only when 1/interval is within 2^-50 relative of an integer (counted as chs.count.rounding / bs.count.rounding)",
+        "float arange length: modelled exactly (Spline.floatLen = ceil of the IEEE round-to-nearest-even quotient, op c19.flen) and compared "
+        "with the implementation's grid size on every case; theorem floatLen_le_count relates it to the rational count",
     ],
     "assumptions": [
         "poses are unit quaternions to 1 ulp of the dtype; time-stamp decisions (nearest stamp, < diff) and distance-pairing "
@@ -61,8 +61,8 @@ META = {
     "partial": [
         "IEEE rounding: theorems are over the reals; float agreement is measured at 64 eps (algebraic), 256 eps (composed Lie ops), "
         "4 sqrt(eps) relative for translation blocks in the (1-cos)/theta^2 cancellation band",
-        "bspline constant-twist / continuity / end-point theorems take Exp(Log D) ~ D and the one-parameter law of Exp on the "
-        "arguments that occur as hypotheses (properties C01/C02); the one-parameter law is proved here for so3 and se3 on the closed-form branch",
+        "one-parameter law of Exp: exact on the closed-form branch (se3), within eps^6/700 / eps^7/5000 on the all-Taylor branch for the "
+        "rotation part (so3Exp_add_taylor); mixed branches and the Taylor-branch translation part are not proved (differences < 1e-90)",
         "ape alignment invariance takes the optimality+uniqueness contract of svdstf (C17) as hypothesis",
     ],
 }
@@ -115,7 +115,8 @@ def excs(e):
 # ============================================================================= chspline
 
 CHS_INTERVALS = [0.1, 0.2, 0.25, 0.3, 0.4, 0.5, 0.6, 0.7, 0.9, 0.99, 1 / 3, 1 / 7, 1 / 49, 0.05, 0.015, 1 - 2 ** -53,
-                 0.5 - 2 ** -54, 0.50000001, 0.3333333333333332, 0.125, 2 ** -5, 0.45, 0.35, 0.8]
+                 0.5 - 2 ** -54, 0.50000001, 0.3333333333333332, 0.125, 2 ** -5, 0.45, 0.35, 0.8] + \
+                [math.nextafter(1 / n_, d_) for n_ in (3, 5, 6, 7, 9, 10, 11, 12, 13) for d_ in (0.0, 1.0)] + [1 / n_ for n_ in (5, 6, 9, 11, 12, 13)]
 
 
 def k_exact(iv: float) -> int:
@@ -126,6 +127,19 @@ def k_near_integer(iv: float) -> bool:
     r = 1 / Fraction(iv)
     n = round(r)
     return r != n and abs(r - n) <= Fraction(n, 2 ** 50)
+
+
+def flen_check(ctx: Ctx, case, mb: "MB", tag: str, iv: float, k: int):
+    """the number of grid values per unit step must be EXACTLY the model's float arange length ceil(fl64(1/interval))"""
+    F = Fraction(iv)
+
+    def cb(rep, k=k):
+        st, toks = common.parse_reply(rep)
+        want = int(toks[0]) if st == "ok" else None
+        if want != k:
+            ctx.disagree("flen", pub(case), f"{tag}: implementation uses {k} grid values per unit step, the model's float arange length is {want} (interval={iv!r})")
+            ctx.fail(pub(case), f"{tag}-count: {k} grid values per unit step for interval={iv!r}; ceil(fl64(1/interval)) = {want} (rational count {k_exact(iv)})")
+    mb.add(f"c19.flen {F.numerator} {F.denominator}", cb)
 
 
 def gen_interval(rng: random.Random, small_ok=True) -> float:
@@ -224,13 +238,13 @@ def _check_chs(ctx: Ctx, case, mb: MB) -> None:
         return
     L = out.shape[-2]
     ke = k_exact(iv)
-    near = k_near_integer(iv)
     if (L - 1) % (N - 1) != 0:
         ctx.fail(pub(case), f"chs-count: {L} samples for N={N}, interval={iv!r}: not of the form (N-1)k+1 (k={ke})")
         return
     k = (L - 1) // (N - 1)
+    flen_check(ctx, case, mb, "chs", iv, k)
     if k != ke:
-        if near and k == ke - 1:
+        if k == ke - 1:          # floatLen_le_count: the float length may fall short by one; which one is decided exactly by c19.flen
             ctx.count("chs.count.rounding")
         else:
             ctx.fail(pub(case), f"chs-count: {L} samples = (N-1)*{k}+1 for N={N}, interval={iv!r}; the interval has {ke} multiples in [0,1)")
@@ -515,8 +529,9 @@ def _check_bs(ctx: Ctx, case, mb: MB) -> None:
         ctx.fail(pub(case), f"bs-count: {L} poses for {N} input poses (extrapolate={ex}), interval={iv!r}: not segments*k+1 with {nseg} segments")
         return
     k = (L - 1) // nseg
+    flen_check(ctx, case, mb, "bs", iv, k)
     if k != ke:
-        if near and k == ke - 1:
+        if k == ke - 1:
             ctx.count("bs.count.rounding")
         else:
             ctx.fail(pub(case), f"bs-count: {L} poses = {nseg}*{k}+1, the interval {iv!r} has {ke} multiples in [0,1)")
@@ -1142,8 +1157,22 @@ def ape_kwargs(case):
     return kw
 
 
-def model_mode(mode):
-    return 0 if mode == "none" else (1 if mode == "origin" else 2)
+_MODE_TABLE = {}
+
+
+def model_flags(ctx: Ctx, mode: str):
+    """(model mode 0 none / 1 origin / 2 svd, with_scale) for the documented flags of `mode` — decided by the Lean model
+    (`Traj.modeOfFlags`, op c19.mode), not by the harness"""
+    if not _MODE_TABLE:
+        combos = [(a, s_, o) for a in (0, 1) for s_ in (0, 1) for o in (0, 1)]
+        reps = ctx.driver.run([f"c19.mode {a} {s_} {o}" for a, s_, o in combos])
+        for cmb, rep in zip(combos, reps):
+            st, toks = common.parse_reply(rep)
+            if st != "ok":
+                raise common.InfraError(f"c19.mode replied {rep}")
+            _MODE_TABLE[cmb] = (int(toks[0]), bool(int(toks[1])))
+    fl = MODES[mode]
+    return _MODE_TABLE[(int(bool(fl.get("align"))), int(bool(fl.get("scale"))), int(bool(fl.get("origin"))))]
 
 
 def check_traj(ctx: Ctx, case, mb: MB) -> None:
@@ -1207,19 +1236,20 @@ def _check_traj(ctx: Ctx, case, mb: MB) -> None:
     # alignment transform (contract parameter)
     T = [0, 0, 0, 0, 0, 0, 1.0, 1.0]
     cond = 1.0
-    svd_mode = ("align" in mode) or ("scale" in mode)
+    mmode, with_scale_m = model_flags(ctx, mode)
+    svd_mode = mmode == 2
     if svd_mode:
         try:
-            T, cond = svd_T(ctx, case, B, ir, ie, "scale" in mode)
+            T, cond = svd_T(ctx, case, B, ir, ie, with_scale_m)
             T = list(T)
         except Exception as e:
             ctx.fail(pub(case), f"svdstf-raises: svdstf raised {excs(e)}")
             return
     ts = float(np.abs(B["rp"][:, :3]).max()) + abs(T[7]) * float(np.abs(B["ep"][:, :3]).max()) * 2 + float(np.abs(np.array(T[:3])).max()) + 1e-300
-    if mode == "origin":
+    if mmode == 1:
         ts = 3 * ts
     tau = err_tol(case["etype"], ts)
-    eline = (f"{to_wire(EPS64)} {ETYPES.index(case['etype'])} {model_mode(mode)} {wire_list(T)} {to_wire(B['diff'])} {to_wire(B['off'])}")
+    eline = (f"{to_wire(EPS64)} {ETYPES.index(case['etype'])} {mmode} {wire_list(T)} {to_wire(B['diff'])} {to_wire(B['off'])}")
     rs_m = B["rs_o"]
     es_m = B["es_o"]
 
@@ -1241,7 +1271,7 @@ def _check_traj(ctx: Ctx, case, mb: MB) -> None:
     mb.add(f"c19.ape {eline} {traj_line(rs_m, B['rp'])} {traj_line(es_m, B['ep'])}", cba)
     # oracle: the documented definition evaluated independently (numpy float64) on the associated, aligned poses
     rp_a, ep_a = B["rp"][ir], B["ep"][ie]
-    if mode == "origin":
+    if mmode == 1:
         T0 = R.se3_mul((rp_a[0, :3], rp_a[0, 3:]), R.se3_inv((ep_a[0, :3], ep_a[0, 3:])))
         ea = R.left_mul(T0, ep_a)
     elif svd_mode:
@@ -1279,7 +1309,7 @@ def _check_traj(ctx: Ctx, case, mb: MB) -> None:
         ctx.fail(pub(case), f"ape-raises: ape raised on identical trajectories: {excs(e)}")
     # oracle: invariance of the aligned error under a transform of the estimate
     if mode != "none" and (not svd_mode or cond > 1e-2):
-        with_scale = "scale" in mode
+        with_scale = with_scale_m
         s = math.exp(rnd.uniform(-1.2, 1.2)) if with_scale else 1.0
         G = (R.rand_unit(rnd) * (ts + 1) * rnd.choice([0.1, 1.0, 10.0]), R.rand_quat(rnd))
         ep2 = R.apply_sim(s, G[1], G[0], B["ep"])
@@ -1320,11 +1350,12 @@ def check_rpe(ctx: Ctx, case, mb: MB, B, Tsvd, cond, ts, rnd) -> None:
               rtol=rk["rtol"], all=rk["all"], rpair=rk["rpair"])
     mode = rk["mode"]
     kw.update(MODES[mode])
-    svd_mode = ("align" in mode) or ("scale" in mode)
+    mmode, with_scale_m = model_flags(ctx, mode)
+    svd_mode = mmode == 2
     T = [0, 0, 0, 0, 0, 0, 1.0, 1.0]
     if svd_mode:
         try:
-            T, cond = svd_T(ctx, case, B, ir, ie, "scale" in mode)
+            T, cond = svd_T(ctx, case, B, ir, ie, with_scale_m)
             T = list(T)
         except Exception as e:
             ctx.fail(pub(case), f"svdstf-raises: svdstf raised {excs(e)}")
@@ -1332,7 +1363,7 @@ def check_rpe(ctx: Ctx, case, mb: MB, B, Tsvd, cond, ts, rnd) -> None:
     # aligned estimate poses (independent float64) to decide the pairing and its margins
     rp_a = B["rp"][ir]
     ep_a = B["ep"][ie]
-    if mode == "origin":
+    if mmode == 1:
         T0 = R.se3_mul((rp_a[0, :3], rp_a[0, 3:]), R.se3_inv((ep_a[0, :3], ep_a[0, 3:])))
         ea = R.left_mul(T0, ep_a)
     elif svd_mode:
@@ -1399,7 +1430,7 @@ def check_rpe(ctx: Ctx, case, mb: MB, B, Tsvd, cond, ts, rnd) -> None:
         ctx.fail(pub(case), f"traj-raises: pair_id raised {excs(e)}")
     tsr = 2 * (float(np.abs(rp_a[:, :3]).max()) + float(np.abs(ea[:, :3]).max())) + 1e-300
     tau = err_tol(rk["etype"], tsr)
-    eline = (f"{to_wire(EPS64)} {ETYPES.index(rk['etype'])} {model_mode(mode)} {wire_list(T)} {to_wire(B['diff'])} {to_wire(B['off'])} "
+    eline = (f"{to_wire(EPS64)} {ETYPES.index(rk['etype'])} {mmode} {wire_list(T)} {to_wire(B['diff'])} {to_wire(B['off'])} "
              f"{0 if rk['associate'] == 'frame' else 1} {int(rk['delta'])} {to_wire(rk['delta'])} {to_wire(rk['rtol'])} {1 if rk['all'] else 0} {1 if rk['rpair'] else 0}")
 
     if dtype == "float32":
